@@ -24,7 +24,7 @@ RULE = ("cases = (lattice configuration, kernel, entry point) drawn from structu
         "feasible-must-stay-unchanged case; distinct by digest of (config, entry point, kernel)")
 MIN_EVENTS = {
     "quick": {"LatticeConstraints.__call__/strict-rows": 300,
-              "lattice_lib.finalize_constraints/strict-rows": 100,
+              "lattice_lib.finalize_constraints/strict-rows": 60,
               "Lattice.finalize_constraints/strict-rows": 20,
               "feasible-unchanged": 60},
     "thorough": {"LatticeConstraints.__call__/strict-rows": 5000,
